@@ -1,5 +1,7 @@
 -- Root of the `ChessVerif` library: models, specifications, proofs (built by setup.sh).
 import ChessVerif.Props.C14
 import ChessVerif.Props.C16
+import ChessVerif.Props.C18
+import ChessVerif.Props.C19
 import ChessVerif.Props.C20
 import ChessVerif.Drv.Small
